@@ -278,6 +278,7 @@ class Loader:
                 elif d.endswith('.setter'):
                     kind = 'setter'
             f = FuncRef(c.mod, found, c.qualname + '.' + name, cls=c)
+            f.cached = any('lru_cache' in d for d in decos)     # functools.lru_cache: modelled as a ghost memo table
             if kind == 'static':
                 return f
             if kind == 'class':
